@@ -174,6 +174,14 @@ class Source:
                 raise Undecided("read beyond the structured source")
             s = self.segs[0]
             ln = zint(s.length())
+            if isinstance(s, Raw) and len(self.segs) == 1 and getattr(self, "general", False):
+                # arbitrary remaining input: split without forking on whether everything is taken
+                k = z3.simplify(nt - acc)
+                a, b = self._split_seg(s, k)
+                out.extend(a)
+                self.segs[0:1] = list(b)
+                acc = nt
+                break
             if ctx.entails(nt >= acc + ln):
                 out.append(self.segs.pop(0))
                 acc = z3.simplify(acc + ln)
@@ -452,7 +460,7 @@ def sym_attr(interp, o, name, fr, node):
                 return lower((o.t / 10 ** 6) % 86400)
             if name == "microseconds":
                 return lower(o.t % 10 ** 6)
-        if o.kind == "datetime":
+        if o.kind in ("datetime", "naive_datetime"):
             from . import dtmodel
             return dtmodel.attr(interp, o, name)
     if isinstance(o, SSeq):
@@ -478,7 +486,7 @@ def py_kind(v):
         return v.cls
     if isinstance(v, SOpaque):
         return {"float": float, "uuid": uuid.UUID, "timedelta": datetime.timedelta,
-                "datetime": datetime.datetime}.get(v.kind) or _enum_class(v.kind)
+                "datetime": datetime.datetime, "naive_datetime": datetime.datetime}.get(v.kind) or _enum_class(v.kind)
     raise Undecided(f"py_kind {v!r}")
 
 
@@ -511,6 +519,8 @@ def isinstance_model(interp, v, cls):
         return isinstance(v, cls)
     base = py_kind(v)
     if type(cls).__name__ == "PhantomMeta":
+        if getattr(interp, "inline_phantom", False):
+            return interp.call_function(type(cls).__instancecheck__, [cls, v])
         return phantom_instancecheck(interp, v, cls)
     if base is None:
         raise Undecided("isinstance on unknown kind")
@@ -858,6 +868,20 @@ def make_enum_model(cls):
     return model
 
 
+def m_isfinite(interp, fr, v):
+    import math
+    if isinstance(v, SOpaque) and v.kind == "float":
+        return lower(opaque.isfinite(v.t))
+    if isinstance(v, (SInt, SBool)):
+        return True
+    if isinstance(v, Sym):
+        raise PyRaise(TypeError, "must be real number")
+    try:
+        return math.isfinite(v)
+    except TypeError:
+        raise PyRaise(TypeError)
+
+
 def m_divmod(interp, fr, a, b):
     import ast
     if not isinstance(a, Sym) and not isinstance(b, Sym):
@@ -888,6 +912,7 @@ def base_models():
         uuid.UUID: m_uuid,
         datetime.timedelta: m_timedelta,
         divmod: m_divmod,
+        __import__("math").isfinite: m_isfinite,
         datetime.timezone.utc.utcoffset: lambda interp, fr, *a: datetime.timedelta(0),
     }
     return m
